@@ -151,8 +151,8 @@ def from_hash_correct (t5 : Nat) : Nat :=
 /--
 `mod_n_from_hash(ha)` (the current, fixed code): (Ha mod (N−1)) + 1 for the first 40 bytes of `ha`.
 
-* `z[4-i] = getu64(&ha[8*i..])`, i = 0..5: `&ha[8*i..]` / `bytes[..8]` panic unless `ha.len() >= 40`;
-  z = the first 40 bytes as a big-endian 320-bit number.
+* `buf` = the first 40 bytes of `ha`, or `ha` left-padded with zeros to 40 bytes when it is shorter;
+  `z[4-i] = getu64(&buf[8*i..])`, i = 0..5: z = `buf` as a big-endian 320-bit number.
 * `z1 = [z[3], z[4], 0, 0]` = ⌊z / 2^192⌋; `r = u256_mul(z1, MU')` exact (MU' = N_MINUS_ONE_BARRETT_MU).
 * `(r[4], r[5], r[6]) = (r[4], r[5]) + (z[3], z[4])` with carries (`overflowing_add`; `r[6] = carry2 + carry_t`,
   at most one of the two is set, so no overflow) — the old `r[6]` is overwritten.
@@ -160,8 +160,10 @@ def from_hash_correct (t5 : Nat) : Nat :=
 * two correction rounds, then `h = mod_n_add(t5[0..4], 1)`.
 -/
 def mod_n_from_hash (ha : List UInt8) : Outcome Nat :=
-  if ha.length < 40 then .panic else
-  let z := beNat (ha.take 40)
+  -- `let mut buf = [0u8; 40]; if ha.len() >= 40 { buf = ha[..40] } else { buf[40 - ha.len()..] = ha }`
+  -- (the fixed code: fewer than 40 bytes used to panic in `getu64`; they are now read as the integer they encode)
+  let buf := if 40 ≤ ha.length then ha.take 40 else List.replicate (40 - ha.length) 0 ++ ha
+  let z := beNat buf
   let z1 := z / 2 ^ 192
   let r := z1 * N_MINUS_ONE_BARRETT_MU
   let x := (r / R256 % 2 ^ 128) + z1          -- r[4] + r[5]·2^64 + z[3] + z[4]·2^64, three limbs r[4], r[5], r[6]
